@@ -192,6 +192,43 @@ def bk_cone(P):
     return sorted(out, key=lambda b: b.key)
 
 
+def rounding_precision(P, chk):
+    """Amount::round rounds each commodity's value to the precision stored for that same commodity"""
+    cands = [b for k, b in P.bodies.items() if k.endswith("eval::amount::Amount::round_mut") or k.endswith("eval::amount::Amount::round")]
+    rm = [b for b in cands if b.key.endswith("round_mut")]
+    b = rm[0] if rm else (cands[0] if cands else None)
+    if b is None:
+        chk.anchor_missing("Amount::round_mut not found")
+        return
+    bodies = P.with_closures(b.key)
+    gets = []
+    for x in bodies:
+        chk.analysed(x)
+        for bb, t in x.calls():
+            if (callee_def(t) or "").endswith("get_decimal_point") or (callee_def(t) or "").endswith("CommodityStore::get_decimal_point"):
+                gets.append((x, bb, t))
+    ok = len(gets) == 1
+    detail = "expected one precision lookup in Amount::round_mut, found %d" % len(gets)
+    if ok:
+        x, bb, t = gets[0]
+        key_roots = prov(x, t["args"][1])
+        # the looked-up commodity is the key of the entry being rounded (loop element .0), the rounded value its .1
+        rd = [(b2, t2) for b2, t2 in x.calls() if (callee_def(t2) or "").rsplit("::", 1)[-1] in ("round_dp_with_strategy", "round_dp", "rescale")]
+        ok = bool(rd) and bool(key_roots)
+        if ok:
+            kr = next(iter(key_roots))
+            ok = all(r.fields[-1:] == ("0",) for r in key_roots)
+            for b2, t2 in rd:
+                vr = prov(x, t2["args"][0])
+                ok = ok and bool(vr) and all(r.fields[-1:] == ("1",) and (r.kind, r.name, r.site) == (kr.kind, kr.name, kr.site) for r in vr)
+                pr = prov(x, t2["args"][1])
+                ok = ok and any(r.kind == "call" and r.site == bb for cn, r in q.chains(x, t2["args"][1], stop=lambda r: r.kind == "call" and r.site == bb))
+        detail = "precision looked up for %s, applied to %s" % (sorted(mir.show_root(r) for r in key_roots),
+                                                                [mir.prov_strs(x, t2["args"][0]) for b2, t2 in rd] if ok or rd else "?")
+    chk.require(ok, R_ACC, "Amount::round_mut|each commodity rounded with its own declared precision", b.loc(), detail,
+                "for (c, v) in values { v = v.round_dp(get_decimal_point(c)) }")
+
+
 def run(P, chk, tier):
     chk.rule(R_ACC, "every Ok of check_balance is under is_zero(rounded residual) or a complete implied-exchange test (Some pair, both non-zero, signs differ)")
     chk.rule(R_REJ, "every other return of check_balance is Err(UnbalancedPostings)")
@@ -202,6 +239,11 @@ def run(P, chk, tier):
     check_accept_paths(P, chk)
     check_maybe_pair(P, chk)
     check_one_omitted(P, chk)
+    # "rounded totals": the precision the residual is rounded to is the one declared for that commodity
+    from . import C12
+    chk.rule(C12.R_DECL, "a commodity's `format` (its rounding precision) is stored for the commodity being declared (shared with C12)")
+    C12.format_target(P, chk)
+    rounding_precision(P, chk)
     table = common.load_table("err_chain.toml")
     entries = {e["key"]: e for e in table.get("site", [])}
     used = set()
